@@ -471,32 +471,58 @@ Proof. vm_compute. split; reflexivity. Qed.
    every luaSetRawGlobals site of the package, with how each global is removed again). *)
 From T38 Require Import Gen.LuaGlobals Model.LuaGlobals Proofs.LuaGlobalsProofs.
 
-(* for EVERY history of borrow / invoke / return operations of any number of borrowers - invocations
-   that end normally or by an early return (a WHEREEVAL filter that raised an error), several interpreters
-   out at once - an interpreter in the pool has no global beyond the ones lStatePool.New registered
-   (Gen/LuaAllow.v; c18_sandbox says those are inside the documented allow-list): no KEYS / ARGV / EVAL_CMD
-   of an earlier script, no ID / FIELDS / PROPERTIES of somebody's scanned object *)
-Theorem c18g_idle_interpreters_have_allowlist_globals :
+(* for EVERY history of borrow / invoke / return operations of any number of borrowers - invocations that end
+   normally or by an early return (a WHEREEVAL filter that raised an error), several interpreters out at once,
+   the Lua code of every invocation assigning whatever global names it likes (the __newindex guard lets
+   through exactly Gen.LuaGlobals.newindex_passthrough) - an interpreter in the pool has no global beyond
+   the ones lStatePool.New registered: no KEYS / ARGV / EVAL_CMD / DEADLINE of an earlier script, no ID /
+   FIELDS / PROPERTIES of somebody's scanned object, nothing a script created *)
+Theorem c18g_idle_interpreters_have_no_extra_globals :
   forall (n : nat) (ops : list gop) (x : nat),
-  In x (g_idle (grun (ginit n) ops)) ->
-  extras_of (g_extra (grun (ginit n) ops)) x = [] /\
-  globals_of (grun (ginit n) ops) x = (lua_set_globals ++ lua_base_fns)%list.
-Proof. exact idle_interpreters_have_allowlist_globals. Qed.
-Print Assumptions c18g_idle_interpreters_have_allowlist_globals.
+  In x (g_idle (grun (ginit n) ops)) -> extras_of (g_extra (grun (ginit n) ops)) x = [].
+Proof. exact idle_interpreters_have_no_extra_globals. Qed.
+Print Assumptions c18g_idle_interpreters_have_no_extra_globals.
 
-(* every global the source sets on a borrowed interpreter is removed by a deferred statement, or - for the
-   WHEREEVAL borrower - by the Close() that puts the interpreter back *)
-Theorem c18g_every_global_is_removed_on_every_way_out : forallb entry_ok global_sets = true.
-Proof. exact source_globals_discipline. Qed.
+(* ... and its global names are EXACTLY those (Gen/LuaAllow.v; c18_sandbox places them inside the documented
+   allow-list) as long as no script sets one of them to nil *)
+Theorem c18g_idle_interpreters_have_allowlist_globals_partial :
+  forall (n : nat) (ops : list gop) (x : nat), no_deletes ops ->
+  In x (g_idle (grun (ginit n) ops)) -> globals_of (grun (ginit n) ops) x = base_globals.
+Proof. exact idle_interpreters_have_allowlist_globals_partial. Qed.
+Print Assumptions c18g_idle_interpreters_have_allowlist_globals_partial.
+
+(* FINDING (open, C18-existing-global-overwritten): without that hypothesis it is false. An assignment to a
+   name that exists never reaches the __newindex guard: `EVAL "tostring = nil return 1" 0` returns its
+   interpreter to the pool without tostring, for every later script of every client (and `tile38.x = ARGV[1]`
+   keeps a call's data in a table the next client can read). Reproduced on the real server by the harness. *)
+Theorem c18g_idle_interpreters_have_allowlist_globals_refuted :
+  exists n ops x, In x (g_idle (grun (ginit n) ops)) /\ globals_of (grun (ginit n) ops) x <> base_globals.
+Proof. exact idle_interpreters_have_allowlist_globals_refuted. Qed.
+Print Assumptions c18g_idle_interpreters_have_allowlist_globals_refuted.
+
+(* the source: every global a function sets on a borrowed interpreter, and every name the guard would let a
+   script create in a function that runs Lua code, is removed by a deferred statement of that function or -
+   for the WHEREEVAL borrower - by the Close() that puts the interpreter back; and the guard refuses every name *)
+Theorem c18g_every_global_is_removed_on_every_way_out :
+  forallb entry_ok global_sets = true /\ passthrough_ok = true /\ newindex_passthrough = [].
+Proof. exact (conj (proj1 source_globals_discipline) (conj (proj2 source_globals_discipline) source_guard_refuses_every_name)). Qed.
 Print Assumptions c18g_every_global_is_removed_on_every_way_out.
 
+(* the interpreter itself: NewState options and the methods called on the new state are the audited ones
+   (Model/Sandbox.v says why SetMx, OpenLibs ... are not among them) *)
+Theorem c18_interpreter_configuration :
+  lua_newstate_options = audited_options /\ incl lua_state_methods audited_state_methods.
+Proof. exact interpreter_config_ok. Qed.
+Print Assumptions c18_interpreter_configuration.
+
 (* a WHEREEVAL filter that fails on its object: match leaves by the early return, Close() returns the
-   interpreter - clean; and what the invariant is for: were the removal of ID a plain statement after the
-   PCall, the early return would skip it (survives true "plain" = true) *)
+   interpreter - clean; a plain removal would be skipped by the early return; and why a guard that lets KEYS
+   through is wrong although cmdEvalUnified clears KEYS: whereevalT.match does not *)
 Example c18g_failed_filter_leaves_nothing :
-  let p := grun (ginit 5) [GBorrow 0 true; GInvoke 0 "Server.parseSearchScanBaseTokens" false;
-                           GInvoke 0 "whereevalT.match" false; GInvoke 0 "whereevalT.match" true; GReturn 0] in
+  let p := grun (ginit 5) [GBorrow 0 true; GInvoke 0 "Server.parseSearchScanBaseTokens" false [];
+                           GInvoke 0 "whereevalT.match" false [mkA "KEYS" false; mkA "anything" false];
+                           GInvoke 0 "whereevalT.match" true [mkA "ID" false]; GReturn 0] in
   g_idle p = [0; 1; 2; 3; 4] /\ g_extra p = [] /\
-  survives true "plain" = true /\ survives true "defer" = false /\
-  extras_of (g_extra (grun (ginit 5) [GBorrow 0 true; GInvoke 0 "whereevalT.match" true])) 4 = ["ARGV"].
+  removed_by "whereevalT.match" true "ID" = true /\
+  name_ok "Server.cmdEvalUnified" "KEYS" = true /\ name_ok "whereevalT.match" "KEYS" = false.
 Proof. vm_compute. repeat split. Qed.
